@@ -355,7 +355,7 @@ func layoutCall(r *rand.Rand, k int, narrow bool) (Call, error) {
 	return FromItems(fmt.Sprintf("layout#%d justified=%v indent=%v %q", k, justified, indent, s), items, width, 1e-3, 1, 1), nil
 }
 
-var layoutToks = []string{"on", "women", "wo_men", "new2", "ne_w2", "sp", "sp", "sp", "nbsp", "idsp", "hy", "nl"}
+var layoutToks = []string{"on", "women", "wo_men", "wo_zmen", "new2", "ne_w2", "sp", "sp", "sp", "nbsp", "idsp", "hy", "nl"}
 
 // tokenCall: the text of a random token list of spec/Layout.tla (what the C16 driver lays out), as a Linebreak call.
 func tokenCall(r *rand.Rand, k int) (Call, error) {
